@@ -112,3 +112,8 @@ V('C02', 'excluded-modules-by-string-prefix', 'edb/schema/schema.py',
   'or obj.get_name(schema).get_module_name() not in excmod',
   'or not str(obj.get_name(schema).get_module_name()).startswith(tuple(str(m) for m in excmod))',
   'C02.R7', 'module-filter')
+
+# round 5: the stored seeded breaks this property's check reports, replayed as variants
+from sa.selftest import VP  # noqa
+VP('C02', 'C02-e3', 'C02.R8', 'context-value')
+VP('C02', 'C02-e2', 'C02.R9', 'release-unconditional')
